@@ -25,20 +25,22 @@ RESERVED_PROPERTIES = (
 )
 
 
-def _is_docstring(description: Any) -> bool:
-    """Whether a description reads back unchanged from a plain docstring.
+def _docstring(description: Any) -> str:
+    """Get the source of the docstring holding a description.
 
-    Other descriptions are declared with the ``description`` class argument.
+    Descriptions which would not read back unchanged from a plain triple
+    quoted docstring are written as an escaped string literal.
     """
-    return (
-        isinstance(description, str)
-        and bool(description)
+    if (
+        description
         and "\\" not in description
         and '"""' not in description
         and not description.endswith('"')
         and "\r" not in description
         and "\0" not in description
-    )
+    ):
+        return f'"""{description}"""'
+    return repr(description)
 
 
 class ObjectClassDict(dict):
@@ -188,14 +190,19 @@ class ObjectMeta(type, Element):
             if (
                 value == param.default
                 or (param.name == "additionalProperties" and value is True)
-                or (param.name == "description" and _is_docstring(value))
+                # A non-empty description is declared by the docstring.
+                or (
+                    param.name == "description"
+                    and isinstance(value, str)
+                    and value
+                )
             ):
                 continue
             cls_args.append(f"{param.name}={repr(value)}")
         class_def = f"""class {repr(cls)}({', '.join(cls_args)}):
 """
-        if _is_docstring(cls.description):
-            class_def += f'    """{cls.description}"""\n'
+        if isinstance(cls.description, str):
+            class_def += f"    {_docstring(cls.description)}\n"
         if not cls.properties:
             class_def = (
                 class_def
